@@ -4,7 +4,8 @@
 //! real `Event::RoomModified` of the instance's event service, real room / row / reference mutations.
 //!
 //! World ops (all performed by the instance's own user O = key 1 through the public mutation API):
-//!   room r=<n> t=<ms> | member r=<n> k=<key> role=user|admin|useradmin en=0|1 t=<ms>
+//!   room r=<n> t=<ms> | member r=<n> k=<key> role=user|admin|useradmin en=0|1 t=<ms> [g=<group, default 0>]
+//!   group r=<n> g=<n> t=<ms>   (a further authorisation group of room r; group 0 is created with the room)
 //!   row id=<n> r=<n|-> t=<ms> | ref src=<n> dst=<n> t=<ms> | delrow id=<n> t=<ms> | delref src=<n> dst=<n> t=<ms>
 //! Connection ops:
 //!   open c=<n> | auth c=<n> k=<key> ready=0|1 | now t=<ms>
@@ -88,7 +89,7 @@ pub struct World {
     events: broadcast::Receiver<Event>,
     folder: PathBuf,
     rooms: BTreeMap<u64, Uid>,
-    groups: BTreeMap<u64, Uid>,
+    groups: BTreeMap<(u64, u64), Uid>,
     room_no: HashMap<Uid, u64>,
     rows: BTreeMap<u64, Uid>,
     used_rows: HashSet<u64>,
@@ -258,7 +259,7 @@ impl World {
                         self.room_no.insert(id, r);
                         self.row_no.insert(id, 900 + r);
                         if let Some(subs) = ent.sub_nodes.get("authorisations") {
-                            self.groups.insert(r, subs[0].node_to_mutate.id);
+                            self.groups.insert((r, 0), subs[0].node_to_mutate.id);
                         }
                         match self.deliver_room_event().await {
                             Ok(()) => "ok".into(),
@@ -278,7 +279,14 @@ impl World {
                     Some("0") => false,
                     _ => return "bad-op".into(),
                 };
-                let (rid, gid) = match (self.rooms.get(&r), self.groups.get(&r)) {
+                let g = match kv.get("g") {
+                    Some(g) => match g.parse::<u64>() {
+                        Ok(g) => g,
+                        Err(_) => return "bad-op".into(),
+                    },
+                    None => 0,
+                };
+                let (rid, gid) = match (self.rooms.get(&r), self.groups.get(&(r, g))) {
                     (Some(a), Some(b)) => (*a, *b),
                     _ => return "bad-op".into(),
                 };
@@ -308,6 +316,36 @@ impl World {
                         Ok(()) => "ok".into(),
                         Err(e) => e,
                     },
+                    Err(_) => "err:mutation".into(),
+                }
+            }
+            "group" => {
+                let (r, g, t) = match (get_u(kv, "r"), get_u(kv, "g"), get_i(kv, "t")) {
+                    (Some(r), Some(g), Some(t)) if g >= 1 && !self.groups.contains_key(&(r, g)) => (r, g, t),
+                    _ => return "bad-op".into(),
+                };
+                let rid = match self.rooms.get(&r) {
+                    Some(a) if r != 0 => *a,
+                    _ => return "bad-op".into(),
+                };
+                if !self.set_time(t) {
+                    return "bad-op".into();
+                }
+                self.drain_events();
+                let q = "mutate { sys.Room { id:$r authorisations:[{ name:\"h\" rights:[{entity:\"Person\" mutate_self:true mutate_all:true}] }] } }";
+                match self.svc.mutate_raw(q, Some(params(&[("r", base64_encode(&rid))]))).await {
+                    Ok(mq) => {
+                        match mq.mutate_entities[0].sub_nodes.get("authorisations") {
+                            Some(subs) if !subs.is_empty() => {
+                                self.groups.insert((r, g), subs[0].node_to_mutate.id);
+                            }
+                            _ => return "err:no-group".into(),
+                        }
+                        match self.deliver_room_event().await {
+                            Ok(()) => "ok".into(),
+                            Err(e) => e,
+                        }
+                    }
                     Err(_) => "err:mutation".into(),
                 }
             }
